@@ -11,13 +11,21 @@ if ! diff -q /tmp/.reftable_check.$$/RefTable.v coq/RefTable.v >/dev/null || ! d
 fi
 rm -rf /tmp/.reftable_check.$$
 python3 tools/gen_src.py /repo coq/gen || true
-(cd coq && coq_makefile -f _CoqProject -o Makefile >/dev/null && timeout 3000 make -j16 2>&1 | tail -5)
+# the harness first: the witness seeds of Properties/C12s.v come from a census of the implementation
 python3 - <<'PY'
 import sys
 sys.path.insert(0, 'tools')
 import vlib
 with vlib.Lock():
     vlib.build_harness()
+    vlib.gen_seedwit()
+PY
+(cd coq && coq_makefile -f _CoqProject -o Makefile >/dev/null && timeout 3000 make -j16 2>&1 | tail -5)
+python3 - <<'PY'
+import sys
+sys.path.insert(0, 'tools')
+import vlib
+with vlib.Lock():
     vlib.build_model_tools()
     vlib.build_front_ends()
 print('setup: harness, driver, CLI binary and python extension built')
